@@ -84,18 +84,20 @@ Definition humanize_float (v : fval) (s : bytes) : result bytes :=
   | FNaN => Ok [78; 97; 78]
   | FNegInf | FPosInf => Ok [73; 110; 102]
   | FFin _ _ =>
-      if f_gt v (f_of_Z (-1000)) && f_lt v (f_of_Z 1000) then Ok s
-      else match s with
-           | [] => Panic                                   (* s[0] *)
-           | c :: r =>
-               let negative := c =? 45 in
-               let s1 := if is_digit c then s else r in
-               let decIdx := match index_of 46 s1 with Some i => i | None => length s1 end in
-               let body := hf_loop (firstn decIdx s1) 0 (3 - Nat.modulo decIdx 3) in
-               let dec := if Nat.ltb decIdx (length s1)
-                          then decimalSeparator :: skipn (S decIdx) s1 else [] in
-               Ok ((if negative then [45] else []) ++ body ++ dec)
-           end
+      match s with
+      | [] => Panic                                   (* s[0] *)
+      | c :: r =>
+          let negative := c =? 45 in
+          let s1 := if is_digit c then s else r in
+          let decIdx := match index_of 46 s1 with Some i => i | None => length s1 end in
+          (* after repair C11-hf-rounding the no-separator shortcut is decided on the rounded text *)
+          if Nat.leb decIdx 3 then Ok s
+          else
+            let body := hf_loop (firstn decIdx s1) 0 (3 - Nat.modulo decIdx 3) in
+            let dec := if Nat.ltb decIdx (length s1)
+                       then decimalSeparator :: skipn (S decIdx) s1 else [] in
+            Ok ((if negative then [45] else []) ++ body ++ dec)
+      end
   end.
 
 (* ---- unitize(n, step, precision, delim, units): integer part; the mantissa text is an oracle ---- *)
